@@ -1002,7 +1002,12 @@ class Emitter:
         if isinstance(t, tuple) and t[0] == "opt":
             if name in ("unwrap", "expect"):
                 u = self.gensym("u")
-                self.pending.append((u, v))
+                if self.monad == "Except":
+                    # inside a function returning Result a failing unwrap / expect is the explicit panic exit
+                    site = '"unwrap"' if name == "unwrap" or not args else self.ex(args[0], env, "str")[0]
+                    self.pending.append((u, f"Interp.orPanic {atom(site)} {atom(v)}"))
+                else:
+                    self.pending.append((u, v))
                 self.monadic = True
                 return u, t[1]
             if name == "ok_or" and len(args) == 1:
@@ -1280,11 +1285,18 @@ class Emitter:
         if e[3] is None:
             self.fail("if without else used as a value")
         saved = self.pending
-        self.pending = []
-        a, ta = self.ex(e[2], dict(env), want)
-        b, tb = self.ex(e[3], dict(env), want if ta is None else ta)
-        if self.pending:
-            self.fail("panicking expression inside a branch of an if expression")
+        def branch(blk, w):
+            # a branch whose value is a Result may contain panicking sub-expressions: their binds stay inside the branch
+            self.pending = []
+            v, t = self.ex(blk, dict(env), w)
+            if self.pending:
+                if self.monad == "Except" and isinstance(t, tuple) and t[0] == "res":
+                    v = self.flush(v)
+                else:
+                    self.fail("panicking expression inside a branch of an if expression")
+            return v, t
+        a, ta = branch(e[2], want)
+        b, tb = branch(e[3], want if ta is None else ta)
         self.pending = saved
         if ta != tb:
             # None / Some typing: retry the first branch with the type of the second
@@ -3914,6 +3926,51 @@ def main():
         tr.macro_ctx = False
         tr.out.append("end macros\n")
     group("qasm/int/macros.rs", macrosfile)
+
+    # ---- qasm/int/gates.rs: the arms of `macro_rules! gate`. Each arm is expanded into a function of its macro parameters
+    # (`$name`, `$regs`, `$args`, `$num`; the constructor call `op::$op(..)` / `op::u1(..)` becomes a call of a function
+    # parameter `opf`, its implicit panic an `expect(site)`), and that function is translated like any other. The table
+    # `name -> (arm, constructor)` and the prefix arm of `process` are read by tools/extract.py.
+    def gatesfile(_t):
+        src = open(os.path.join(REPO, "src", "qasm/int/gates.rs")).read()
+        src = re.sub(r"//[^\n]*", "", src)
+        m = re.search(r"macro_rules!\s*gate\s*\{(.*?)\n\}\n", src, re.S)
+        if not m:
+            raise Unsupported("macro_rules! gate not found")
+        arms = re.findall(r"\(\s*\$name:expr,\s*(.*?),\s*\$regs:expr,\s*\$args:expr\s*\)\s*=>\s*\{\{(.*?)\}\};", m.group(1), re.S)
+        want = {"any, $op:ident": ("any", 0, None), "dgr, $op:ident": ("dgr", 0, None), "2, $op:ident": ("two", 0, None),
+                "r($num:expr), $op:ident": ("r", 1, None), "u1": ("u1", 1, "u1"), "u2": ("u2", 2, "u2"), "u3": ("u3", 3, "u3")}
+        seen = {}
+        for pat, body in arms:
+            key = re.sub(r"\s+", " ", pat.strip())
+            if key not in want:
+                tr.problems.append(f"gates.rs: qasm/int/gates.rs::gate!: an arm `{key}` that the translation does not know")
+                continue
+            seen[key] = body
+        tr.register("math", "count_bits", S("Gen.count_bits", [("n", "N")], "N"))
+        for key, (nm, nreal, fixed) in want.items():
+            lean = "gate_arm_" + nm
+            pt = {"opf": ("fn", ["R"] * nreal + ["N"], ("opt", MULTIOP))}
+            extra = ", num: N" if nm == "r" else ""
+            body = seen.get(key)
+            if body is None:
+                body = " unreachable_arm_missing() "
+            t = body.replace("$name", "name").replace("$regs", "regs").replace("$args", "args").replace("$num", "num")
+            ctor_pat = r"op::\$op" if fixed is None else "op::" + fixed
+            t, nsub = re.subn(ctor_pat + r"\(([^()]*)\)", r"opf(\1).expect(site)", t)
+            if "$" in t or "op::" in t or nsub != 1:
+                t = " unsupported_macro_body() "
+            fn = f"fn arm_{nm}<'t>(name: &'t str, site: &'t str, opf: OPF{extra}, regs: Vec<N>, args: Vec<R>) -> Result<'t, MultiOp> {{ {t} }}\n"
+            try:
+                toks = skip_cfg_items(tokenize(fn))
+            except Unsupported as ex:
+                toks = skip_cfg_items(tokenize(fn.replace(t, " unsupported_macro_body() ")))
+            T(toks, "qasm/int/gates.rs", "arm_" + nm, lean, param_types=pt, default_elem="str",
+              doc=f"`qasm/int/gates.rs`: the arm `{key}` of `macro_rules! gate`, as a function of its macro parameters")
+    try:
+        gatesfile(None)
+    except (OSError, Unsupported) as ex:
+        tr.problems.append(f"gates.rs: qasm/int/gates.rs: {ex}")
 
     # ---- qasm/int/mod.rs, second part: statement dispatch and the session entry points. Gate application / definition / `if`
     # are handed on to the model's functions (glue `Interp.ext*` in Model/Interp.lean) as long as they are mirrored by hand
